@@ -47,6 +47,14 @@ def cases(tier, seed):
             npairs = n * (n - 1) // 2
             for mask in range(1 << npairs):
                 out.append({"key": f"q8lower/n={n}/s={mask:0{npairs}b}", "grp": "q8lower", "n": n, "mask": mask, "row": 0})
+    for n in range(3, N + 2):
+        for pband in range(1, n - 1):  # exact zeros below the p-th sub-diagonal (lower bandwidth p), generic elsewhere
+            for cls in ("generic", "ints"):
+                out.append({"key": f"lowerband/n={n}/p={pband}/{cls}", "grp": "band", "n": n, "p": pband, "cls": cls, "row": 0})
+        for kind in G.SPECIAL_KINDS:
+            out.append({"key": f"special/{kind}/n={n}", "grp": "special", "kind": kind, "n": n, "row": 0})
+        for mask in G.COMPONENT_MASKS:
+            out.append({"key": f"compmask/n={n}/{G.mask_name(mask)}", "grp": "compmask", "n": n, "mask": mask, "row": 0})
     for n in (8, 9, 12, 17):
         for st in ("generic", "hermitian", "hess", "ints"):
             out.append({"key": f"{st}/n={n}/large", "grp": "struct", "st": st, "n": n, "row": 0})
@@ -102,6 +110,17 @@ def make(case, seed):
             for i in range(n):
                 A[i, : max(i - 1, 0)] = P_[i, : max(i - 1, 0)]
         return A
+    if grp == "band":
+        A = fill.quat(n, n, bits=4, lo=-40, hi=40) if case["cls"] == "generic" else fill.quat_int(n, n, -3, 3).astype(float)
+        for i in range(n):
+            A[i, : max(i - case["p"], 0)] = 0.0
+        return A
+    if grp == "special":
+        return G.special(case["kind"], n, fill)
+    if grp == "compmask":
+        A = fill.quat_int(n, n, -3, 3).astype(float)
+        A[A == 0] = 1.0
+        return G.apply_component_mask(A, case["mask"])
     if grp == "colmask":
         A = fill.quat(n, n, bits=4, lo=-40, hi=40) if case["cls"] == "generic" else fill.quat_int(n, n, -3, 3).astype(float)
         for k in range(n - 2):
